@@ -165,17 +165,27 @@ func verifyUnit1(l *Loader, pkgPath, key string, fixed map[string]Val, suffix st
 				// the named obligation holds iff all parts hold
 				parent := ex.Obls[len(ex.Obls)-1]
 				for _, ri := range live {
-					rs := ex.TopRets[ri].st.clone()
-					rs.Reach = ex.TopRets[ri].cond
-					envr := &SpecEnv{ex: ex, fx: fxp, st: rs, old: entry, vars: map[string]Val{}, fn: fn}
-					for k, v := range env.vars {
-						envr.vars[k] = v
+					rs0 := ex.TopRets[ri].st.clone()
+					rs0.Reach = ex.TopRets[ri].cond
+					parts := splitOnHeapIte(rs0, 3)
+					for pi, rs := range parts {
+						envr := &SpecEnv{ex: ex, fx: fxp, st: rs, old: entry, vars: map[string]Val{}, fn: fn}
+						for k, v := range env.vars {
+							envr.vars[k] = v
+						}
+						bindResults(envr, c, fn, ex.TopRetVals[ri])
+						tr := envr.evalBool(cl)
+						name := fmt.Sprintf("%s@ret%d", parent.Name, ri+1)
+						if len(parts) > 1 {
+							name = fmt.Sprintf("%s.p%d", name, pi+1)
+						}
+						sub := &Obl{Name: name, Kind: kind, Unit: ex.Unit, Assume: parent.Assume, Reach: rs.Reach, Goal: tr,
+							Pos: parent.Pos, Src: cl.Src, Bounded: ex.Bounded, Inputs: ex.Inputs, Trivial: tr.IsTrue()}
+						if dv := debugEvals(envr); len(dv) > 0 {
+							sub.Inputs = append(append([]NamedVal{}, ex.Inputs...), dv...)
+						}
+						parent.Subs = append(parent.Subs, sub)
 					}
-					bindResults(envr, c, fn, ex.TopRetVals[ri])
-					tr := envr.evalBool(cl)
-					sub := &Obl{Name: fmt.Sprintf("%s@ret%d", parent.Name, ri+1), Kind: kind, Unit: ex.Unit, Assume: parent.Assume, Reach: rs.Reach, Goal: tr,
-						Pos: parent.Pos, Src: cl.Src, Bounded: ex.Bounded, Inputs: ex.Inputs, Trivial: tr.IsTrue()}
-					parent.Subs = append(parent.Subs, sub)
 				}
 			}
 		}
